@@ -254,12 +254,12 @@ def compile_problem(P, fresh_env=False):
     from unified_planning.shortcuts import Compiler
 
     try:
-        env = up.environment.Environment() if fresh_env else None
-        problem = call_limited(lambda: upj.build(P, env))
+        # (a new Environment per attempt: an interrupted attempt must not leave anything behind)
+        problem = call_limited(lambda: upj.build(P, up.environment.Environment() if fresh_env else None), 60, 10)
     except ImplTimeout:
         return None, None, "build-timeout"
     except Exception as ex:
-        return None, None, "build:" + _exc(ex)
+        return None, None, "build:" + _exc(ex) + ":" + str(ex)[:120]
     if not DurativeActionToProcesses.supports(problem.kind):
         return None, None, "unsupported-kind"
 
@@ -268,21 +268,24 @@ def compile_problem(P, fresh_env=False):
             return c.compile(problem, CompilationKind.DURATIVE_ACTIONS_TO_PROCESSES)
 
     try:
-        res = call_limited(comp)
+        res = call_limited(comp, 60, 10)
     except ImplTimeout:
         return None, None, "compile-timeout"
     except Exception as ex:
-        return None, None, "compile:" + _exc(ex)
+        return None, None, "compile:" + _exc(ex) + ":" + str(ex)[:120]
     if res.plan_forward_conversion is None or res.plan_back_conversion is None:
         return None, None, "compile:no-conversion"
     return problem, res, ""
 
 
-def convert(problem, res, steps):
-    """one plan through the real conversions; returns the judged record"""
+def convert(problem, res, steps, rng=None):
+    """one plan through the real conversions; returns the judged record.  back2: the back conversion of the same
+    forward plan with its timed actions listed in another (seeded) order -- a plan is a bag"""
+    from unified_planning.plans import TimeTriggeredPlan
     from ..timeobs import build_tt_plan
 
-    rec = {"steps": steps, "fwd": {"exc": "", "ev": []}, "back": {"exc": "not-run", "items": []}}
+    rec = {"steps": steps, "fwd": {"exc": "", "ev": []}, "back": {"exc": "not-run", "items": []},
+           "back2": {"exc": "not-run", "items": []}}
     plan = build_tt_plan(problem, steps)
     try:
         fw = call_limited(lambda: res.plan_forward_conversion(plan), 10)
@@ -300,6 +303,16 @@ def convert(problem, res, steps):
         rec["back"]["exc"] = "TIMEOUT"
     except Exception as ex:
         rec["back"]["exc"] = _exc(ex)
+    try:
+        tas = list(fw.timed_actions)
+        (rng or random.Random(len(tas))).shuffle(tas)
+        fw2 = TimeTriggeredPlan(tas, fw.environment)
+        bk2 = call_limited(lambda: res.plan_back_conversion(fw2), 10)
+        rec["back2"] = {"exc": "", "items": project_plan(bk2, "a")}
+    except ImplTimeout:
+        rec["back2"]["exc"] = "TIMEOUT"
+    except Exception as ex:
+        rec["back2"]["exc"] = _exc(ex)
     return rec
 
 
@@ -322,7 +335,7 @@ def worker(job):
             seen.add(repr(steps))
             plans.append(steps)
     for steps in plans:
-        rec["plans"].append(convert(problem, res, steps))
+        rec["plans"].append(convert(problem, res, steps, rng))
     return rec
 
 
@@ -436,8 +449,8 @@ def run(ctx):
             raise MachineryError("lost enumerated plans")
         erecs.append(rec)
     # ---- T3: generated problems x seeded plans ---------------------------------------------
-    n = 330 if q else 3000
-    nplans = 12 if q else 24
+    n = 300 if q else 2000
+    nplans = 10 if q else 20
     rng = ctx.rng
     corpus = []
     gens = [
@@ -459,10 +472,12 @@ def run(ctx):
     jobs = [(i + 1, P, table, nplans, 4 if q else 5, ctx.seed * 7919 + i, None) for i, (tag, P, table) in enumerate(corpus)]
     with Pool(8, maxtasksperchild=40) as pool:
         recs = pool.map(worker, jobs, chunksize=2)
-    skipped = {}
+    skipped, skip_detail = {}, {}
     for r in recs:
         if r["skip"]:
-            skipped[r["skip"]] = skipped.get(r["skip"], 0) + 1
+            k = ":".join(r["skip"].split(":")[:2])
+            skipped[k] = skipped.get(k, 0) + 1
+            skip_detail.setdefault(k, r["skip"])
     batch = [r for r in recs if not r["skip"] and r["plans"]]
     if len(batch) < n // 3:
         raise MachineryError("too few problems compiled: %d of %d (%r)" % (len(batch), n, skipped))
@@ -495,6 +510,7 @@ def run(ctx):
     ctx.cov["distinct_nontrivial"] = nontrivial
     ctx.cov["problems_judged"] = len(batch)
     ctx.cov["problems_skipped"] = skipped
+    ctx.cov["problems_skipped_example"] = skip_detail
     ctx.cov["plans_with_feature"] = feat
     ctx.cov["outside_zone"] = ctx.notes.get("zone", {})
     for k in feat:
